@@ -51,7 +51,7 @@ func runC02(c *Ctx) bool {
 	// over-long lines (bufio.Scanner's 64 KiB token limit): rejected or rendered completely, never
 	// silently lost - whatever the position of the long line
 	kSize := 0
-	for _, n := range []int{65535, 65536, 70000} {
+	for _, n := range []int{4095, 4096, 4097, 8192, 20000, 65535, 65536, 70000} {
 		for pos := 0; pos < 4; pos++ {
 			idx := base + kSize
 			kSize++
@@ -83,7 +83,7 @@ func runC02(c *Ctx) bool {
 	// wide parents with repeated names, deep spines, and documents with more roots than any
 	// batch, pool or channel the pipeline may use (66 ... 300 small roots)
 	extra := base + nRand
-	for k, w := range []int{31, 32, 33, 64, 65, 66, 128, 129, 256, 257, -66, -130, 1066, 1130, 1300} {
+	for k, w := range []int{31, 32, 33, 64, 65, 66, 128, 129, 256, 257, -66, -130, 1066, 1130, 1300, 0} {
 		idx := extra + k
 		if !c.Mine(idx) {
 			continue
@@ -99,6 +99,8 @@ func runC02(c *Ctx) bool {
 				f = append(f, t)
 			}
 			cs.Depths, cs.Names = gen.Depths(f)
+		case w == 0:
+			cs.Depths, cs.Names = gen.LongDup()
 		case w > 0:
 			cs.Depths, cs.Names = gen.WideDup(w, []int{0, w / 2, w - 2, w - 1})
 		default:
@@ -564,6 +566,9 @@ func evalC02Long(c *Ctx, cs *Case) {
 				det["why"] = why
 				c.Violation(cs, "accepted.incomplete", "long-line", det)
 			}
+		case n < 60000:
+			// far below the scanner's 64 KiB limit: a well-formed document, it must be accepted
+			c.Violation(cs, "wellformed.rejected", "long-line", det)
 		}
 	}
 	cs.Entry, cs.Tags = "", nil
